@@ -38,10 +38,27 @@ class KernelProp(Prop):
         ops = [({**op, "next": r["next"]} if "next" in r else op) for op, r in zip(case["ops"], impl)]
         # the model's task id of an async lookup is only a label: use the lookup's own id
         ops = [({**op, "t": op["lid"]} if op["op"] == "get" and "lid" in op else op) for op in ops]
-        return {"kind": "ctx", "ops": ops}
+        # a child context entered by a helper task that then ends without leaving it = `new` + `enter` by a
+        # task of its own
+        out = []
+        for op in ops:
+            if op["op"] == "leak":
+                out += [{"op": "new", "t": 9000 + op["c"], "c": op["c"], "parent": op["parent"]},
+                        {"op": "enter", "t": 9000 + op["c"], "c": op["c"]}]
+            else:
+                out.append(op)
+        return {"kind": "ctx", "ops": out}
 
     def compare(self, case, impl, model):
-        mo = model["out"]
+        mo = list(model["out"])
+        merged = []
+        for op in case["ops"]:
+            if op["op"] == "leak" and len(mo) >= 2:
+                a, b = mo.pop(0), mo.pop(0)
+                merged.append({"res": a["res"] + b["res"], "ev": a["ev"] + b["ev"]})
+            elif mo:
+                merged.append(mo.pop(0))
+        mo = merged
         if len(mo) != len(impl):
             return f"model answered {len(mo)} steps, implementation {len(impl)}"
         for i, (m, r) in enumerate(zip(mo, impl)):
